@@ -81,6 +81,12 @@ def tasks(tier):
                    durs=[0, 1], strat_menu=[1, 9], strat_free=True, max_unknown=None,
                    sleeper="policy" if "Set" in e else "call")
         out.append({"family": "delay-same-object", "cfg": cfg, "entry": e, "bound": 1, "weight": 3})
+    # an attempt fails because its on_attempt_start hook raised: whatever the entry point makes of
+    # that, the strategy consultations of one run carry the attempt numbers 1, 2, 3, ... in order
+    for idx, e in itertools.product([0, 1, 2], Q4 + ["Policy.execute", "RetryPolicy.execute"]):
+        cfg = dict(M=4, alphabet=["ok", "x:T", "r:T"], attempt_hooks="call", max_unknown=None,
+                   faults=[("astart", idx, "RuntimeError")], strat_menu=[1])
+        out.append({"family": "attempt-number-hook-fault", "cfg": cfg, "entry": e, "bound": 0})
     # time passes inside the sleep handler; an attempt timeout is configured
     for tb, at, e in itertools.product(TABLES[:2] + TABLES[4:], [None, 2], Q4):
         cfg = dict(M=3, strat=tb, deadline=6, alphabet=["ok", "x:T", "x:R+ra", "r:T"],
@@ -93,7 +99,20 @@ def tasks(tier):
     return out
 
 
+def monitor_numbers(w, cfg):
+    """Every failure is retried in this family (no per-class cap, no budget, no handler), so the
+    k-th strategy consultation of a call follows the k-th attempt."""
+    v = []
+    for call in split_calls(w.trace):
+        nums = [r[3] for r in call.records if r[0] == "strategy"]
+        if nums != list(range(1, len(nums) + 1)):
+            v.append(("c05.attempt-number", f"strategy consulted with attempt numbers {nums}"))
+    return v
+
+
 def monitor(w, cfg):
+    if any(f[0] == "astart" for f in cfg["faults"] or ()):
+        return monitor_numbers(w, cfg)
     v = []
     ra_s = cfg["ra_ticks"] * 0.125
     for call in split_calls(w.trace):
